@@ -69,10 +69,108 @@ impl<'de> Deserializer<'de> for Script {
         // as every real format does: a newtype struct is transparent
         visitor.visit_newtype_struct(self)
     }
+    fn deserialize_tuple<V: Visitor<'de>>(self, len: usize, visitor: V) -> Result<V::Value, VErr> {
+        // the length a type *declares* is what length-aware formats (CBOR, postcard, ...) put on or expect from the wire
+        DECLARED_TUPLE_LEN.with(|d| d.set(Some(len)));
+        self.deserialize_any(visitor)
+    }
     serde::forward_to_deserialize_any! {
         bool i8 i16 i32 i64 i128 u8 u16 u32 u64 u128 f32 f64 char str string bytes byte_buf option unit
-        unit_struct seq tuple tuple_struct map struct enum identifier ignored_any
+        unit_struct seq tuple_struct map struct enum identifier ignored_any
     }
+}
+
+thread_local! {
+    static DECLARED_TUPLE_LEN: std::cell::Cell<Option<usize>> = const { std::cell::Cell::new(None) };
+}
+
+/// A format-free *serializer*: records what the `Serialize` impl hands to the data model (a tuple with a declared
+/// length and its elements, or a byte string), so that the declared shape can be checked independently of what
+/// bincode and JSON happen to do with it (both ignore a tuple's declared length).
+#[derive(Debug, PartialEq, Eq)]
+enum Shape {
+    Tuple { declared: usize, elements: Vec<u8> },
+    Bytes(Vec<u8>),
+}
+struct Rec;
+struct RecTuple {
+    declared: usize,
+    elements: Vec<u8>,
+}
+struct ByteOnly;
+macro_rules! unsupported {
+    ($($f:ident($t:ty)),*) => { $(fn $f(self, _v: $t) -> Result<Self::Ok, VErr> { Err(serde::ser::Error::custom("unexpected data-model call")) })* };
+}
+impl serde::Serializer for ByteOnly {
+    type Ok = u8;
+    type Error = VErr;
+    type SerializeSeq = serde::ser::Impossible<u8, VErr>;
+    type SerializeTuple = serde::ser::Impossible<u8, VErr>;
+    type SerializeTupleStruct = serde::ser::Impossible<u8, VErr>;
+    type SerializeTupleVariant = serde::ser::Impossible<u8, VErr>;
+    type SerializeMap = serde::ser::Impossible<u8, VErr>;
+    type SerializeStruct = serde::ser::Impossible<u8, VErr>;
+    type SerializeStructVariant = serde::ser::Impossible<u8, VErr>;
+    fn serialize_u8(self, v: u8) -> Result<u8, VErr> {
+        Ok(v)
+    }
+    unsupported!(serialize_bool(bool), serialize_i8(i8), serialize_i16(i16), serialize_i32(i32), serialize_i64(i64), serialize_u16(u16), serialize_u32(u32), serialize_u64(u64), serialize_f32(f32), serialize_f64(f64), serialize_char(char), serialize_str(&str), serialize_bytes(&[u8]), serialize_unit_struct(&'static str));
+    fn serialize_none(self) -> Result<u8, VErr> { Err(serde::ser::Error::custom("unexpected")) }
+    fn serialize_some<T: ?Sized + Serialize>(self, _v: &T) -> Result<u8, VErr> { Err(serde::ser::Error::custom("unexpected")) }
+    fn serialize_unit(self) -> Result<u8, VErr> { Err(serde::ser::Error::custom("unexpected")) }
+    fn serialize_unit_variant(self, _n: &'static str, _i: u32, _v: &'static str) -> Result<u8, VErr> { Err(serde::ser::Error::custom("unexpected")) }
+    fn serialize_newtype_struct<T: ?Sized + Serialize>(self, _n: &'static str, _v: &T) -> Result<u8, VErr> { Err(serde::ser::Error::custom("unexpected")) }
+    fn serialize_newtype_variant<T: ?Sized + Serialize>(self, _n: &'static str, _i: u32, _v: &'static str, _x: &T) -> Result<u8, VErr> { Err(serde::ser::Error::custom("unexpected")) }
+    fn serialize_seq(self, _l: Option<usize>) -> Result<Self::SerializeSeq, VErr> { Err(serde::ser::Error::custom("unexpected")) }
+    fn serialize_tuple(self, _l: usize) -> Result<Self::SerializeTuple, VErr> { Err(serde::ser::Error::custom("unexpected")) }
+    fn serialize_tuple_struct(self, _n: &'static str, _l: usize) -> Result<Self::SerializeTupleStruct, VErr> { Err(serde::ser::Error::custom("unexpected")) }
+    fn serialize_tuple_variant(self, _n: &'static str, _i: u32, _v: &'static str, _l: usize) -> Result<Self::SerializeTupleVariant, VErr> { Err(serde::ser::Error::custom("unexpected")) }
+    fn serialize_map(self, _l: Option<usize>) -> Result<Self::SerializeMap, VErr> { Err(serde::ser::Error::custom("unexpected")) }
+    fn serialize_struct(self, _n: &'static str, _l: usize) -> Result<Self::SerializeStruct, VErr> { Err(serde::ser::Error::custom("unexpected")) }
+    fn serialize_struct_variant(self, _n: &'static str, _i: u32, _v: &'static str, _l: usize) -> Result<Self::SerializeStructVariant, VErr> { Err(serde::ser::Error::custom("unexpected")) }
+}
+impl serde::ser::SerializeTuple for RecTuple {
+    type Ok = Shape;
+    type Error = VErr;
+    fn serialize_element<T: ?Sized + Serialize>(&mut self, v: &T) -> Result<(), VErr> {
+        self.elements.push(v.serialize(ByteOnly)?);
+        Ok(())
+    }
+    fn end(self) -> Result<Shape, VErr> {
+        Ok(Shape::Tuple { declared: self.declared, elements: self.elements })
+    }
+}
+impl serde::Serializer for Rec {
+    type Ok = Shape;
+    type Error = VErr;
+    type SerializeSeq = serde::ser::Impossible<Shape, VErr>;
+    type SerializeTuple = RecTuple;
+    type SerializeTupleStruct = serde::ser::Impossible<Shape, VErr>;
+    type SerializeTupleVariant = serde::ser::Impossible<Shape, VErr>;
+    type SerializeMap = serde::ser::Impossible<Shape, VErr>;
+    type SerializeStruct = serde::ser::Impossible<Shape, VErr>;
+    type SerializeStructVariant = serde::ser::Impossible<Shape, VErr>;
+    fn serialize_bytes(self, v: &[u8]) -> Result<Shape, VErr> {
+        Ok(Shape::Bytes(v.to_vec()))
+    }
+    fn serialize_tuple(self, len: usize) -> Result<RecTuple, VErr> {
+        Ok(RecTuple { declared: len, elements: Vec::new() })
+    }
+    fn serialize_newtype_struct<T: ?Sized + Serialize>(self, _n: &'static str, v: &T) -> Result<Shape, VErr> {
+        v.serialize(Rec)
+    }
+    unsupported!(serialize_bool(bool), serialize_i8(i8), serialize_i16(i16), serialize_i32(i32), serialize_i64(i64), serialize_u8(u8), serialize_u16(u16), serialize_u32(u32), serialize_u64(u64), serialize_f32(f32), serialize_f64(f64), serialize_char(char), serialize_str(&str), serialize_unit_struct(&'static str));
+    fn serialize_none(self) -> Result<Shape, VErr> { Err(serde::ser::Error::custom("unexpected")) }
+    fn serialize_some<T: ?Sized + Serialize>(self, _v: &T) -> Result<Shape, VErr> { Err(serde::ser::Error::custom("unexpected")) }
+    fn serialize_unit(self) -> Result<Shape, VErr> { Err(serde::ser::Error::custom("unexpected")) }
+    fn serialize_unit_variant(self, _n: &'static str, _i: u32, _v: &'static str) -> Result<Shape, VErr> { Err(serde::ser::Error::custom("unexpected")) }
+    fn serialize_newtype_variant<T: ?Sized + Serialize>(self, _n: &'static str, _i: u32, _v: &'static str, _x: &T) -> Result<Shape, VErr> { Err(serde::ser::Error::custom("unexpected")) }
+    fn serialize_seq(self, _l: Option<usize>) -> Result<Self::SerializeSeq, VErr> { Err(serde::ser::Error::custom("unexpected")) }
+    fn serialize_tuple_struct(self, _n: &'static str, _l: usize) -> Result<Self::SerializeTupleStruct, VErr> { Err(serde::ser::Error::custom("unexpected")) }
+    fn serialize_tuple_variant(self, _n: &'static str, _i: u32, _v: &'static str, _l: usize) -> Result<Self::SerializeTupleVariant, VErr> { Err(serde::ser::Error::custom("unexpected")) }
+    fn serialize_map(self, _l: Option<usize>) -> Result<Self::SerializeMap, VErr> { Err(serde::ser::Error::custom("unexpected")) }
+    fn serialize_struct(self, _n: &'static str, _l: usize) -> Result<Self::SerializeStruct, VErr> { Err(serde::ser::Error::custom("unexpected")) }
+    fn serialize_struct_variant(self, _n: &'static str, _i: u32, _v: &'static str, _l: usize) -> Result<Self::SerializeStructVariant, VErr> { Err(serde::ser::Error::custom("unexpected")) }
 }
 
 fn script_de<T: for<'de> Deserialize<'de>>(els: &[El]) -> Option<T> {
@@ -115,7 +213,11 @@ where
             let d1: Option<T> = bincode::deserialize(&want_bin).ok();
             let d2: Option<T> = serde_json::from_str(&want_json).ok();
             let d3: Option<T> = if sp.derived_newtype { None } else { T::deserialize(SeqDeserializer::<_, VErr>::new(b.iter().cloned())).ok() };
+            DECLARED_TUPLE_LEN.with(|d| d.set(None));
             let d4: Option<T> = script_de(&b.iter().map(|x| El::Byte(*x)).collect::<Vec<_>>());
+            if let Some(n) = DECLARED_TUPLE_LEN.with(|d| d.get()) {
+                assert!(n == 32, "Deserialize declares a tuple of {} elements for a 32-byte encoding", n);
+            }
             (d1, d2, d3, d4)
         });
         match r {
@@ -149,6 +251,21 @@ where
                 }
                 want_bin.extend_from_slice(&cb);
                 let want_json = format!("[{}]", cb.iter().map(|x| x.to_string()).collect::<Vec<_>>().join(","));
+                // the shape handed to the data model, independent of any format
+                match guarded(|| v.serialize(Rec)) {
+                    Ok(Ok(Shape::Tuple { declared, elements })) => {
+                        if declared != 32 || elements != cb.to_vec() {
+                            ctx.violation(&key("serialize.shape"), &format!("serialises as a tuple declared with {} elements holding {} (want 32 elements: the canonical bytes)", declared, elements.len()), case.clone());
+                        }
+                    }
+                    Ok(Ok(Shape::Bytes(bs))) => {
+                        if bs != cb.to_vec() {
+                            ctx.violation(&key("serialize.shape"), "serialises as a byte string that is not the canonical encoding", case.clone());
+                        }
+                    }
+                    Ok(Err(e)) => ctx.violation(&key("serialize.shape"), &format!("serialises as something other than a 32-tuple of u8 or a byte string: {}", e), case.clone()),
+                    Err(e) => ctx.violation(&key("serialize.shape"), &format!("panic: {}", e), case.clone()),
+                }
                 let r = guarded(|| (bincode::serialize(&v).ok(), serde_json::to_string(&v).ok()));
                 match r {
                     Ok((sb, sj)) => {
